@@ -31,6 +31,13 @@ Definition N_CALL := 26.
 Definition N_INIT := 27.
 Definition N_AS_INTEGER_RATIO := 28.
 Definition N_TO_BYTES := 29.
+(* C14x extension (model in Ops/Ext.v): 30..35 __lt__ __le__ __gt__ __ge__ __eq__ __ne__, 36 __contains__,
+   37+i the in-place dunder of binary operator i, 49 __pos__, 50 __invert__, 51 __bool__, 52 __len__, 53 __iter__,
+   54 __setitem__, 55 __delitem__.
+   They are dunders, not attribute names: the attribute / method-call statements of this file skip them. *)
+Definition N_NEW := 30.
+Definition N_NEW_END := 56.
+Definition is_new (n : name) : bool := (N_NEW <=? n) && (n <? N_NEW_END).
 
 (* slots.REVERSE_NAME_MAPPING: __add__ -> __radd__ ...; __getitem__ has no reverse *)
 Definition rname (n : name) : option name :=
@@ -64,7 +71,8 @@ Record clsinfo := mk_cls {
 
 Definition table := cls -> clsinfo.
 
-Inductive res := Err | Ok (owner : cls) (n : name) | OkUnion.
+(* OkPlain: a value that no dunder produced (a natively computed comparison, the default ==/!=, `not x`) *)
+Inductive res := Err | Ok (owner : cls) (n : name) | OkUnion | OkPlain.
 
 Definition is_err (r : res) : bool := match r with Err => true | _ => false end.
 
@@ -282,9 +290,9 @@ Definition run_c (R : table) (s : stmt) : res :=
   | SMcall x n => mcall R x n
   end.
 
-(* compact printing: 0 = Err, 1 = OkUnion, 2 + 256*owner + name *)
+(* compact printing: 0 = Err, 1 = OkUnion, 2 = OkPlain, 3 + 256*owner + name *)
 Definition code (r : res) : nat :=
-  match r with Err => 0 | OkUnion => 1 | Ok o n => 2 + 256 * o + n end.
+  match r with Err => 0 | OkUnion => 1 | OkPlain => 2 | Ok o n => 3 + 256 * o + n end.
 
 (* ---- closed obligations over the regenerated builtin rows ---- *)
 (* Explicit exclusions: places where the regenerated tables of the UNCHANGED tree disagree; each is a listed
@@ -380,6 +388,7 @@ Definition unary_faithful (rowsT rowsR : list brow) : bool :=
         forallb (fun br =>
           let n := be_name br in
           (n <? N_NEG) ||                    (* dunders taking an argument: covered by pair_faithful *)
+          is_new n ||                        (* the dunders of Ops/Ext.v: covered there *)
           match find_entry rt n with
           | Some bt => excl_fp_mcall (be_owner br) n || implb (be_call0 br) (be_call0 bt)
           | None => excl_fp_attr (be_owner br) n
@@ -410,7 +419,7 @@ Definition presence_caught (rowsT rowsR : list brow) : bool :=
   forallb (fun c =>
     match nth_error rowsT c, nth_error rowsR c with
     | Some rt, Some rr =>
-        forallb (fun bt => (be_name bt <? N_NEG) ||
+        forallb (fun bt => (be_name bt <? N_NEG) || is_new (be_name bt) ||
                            match find_entry rr (be_name bt) with
                            | Some br => (negb (be_name bt =? N_NEG)) || implb (be_call0 bt) (be_call0 br)
                            | None => false
